@@ -213,6 +213,7 @@ theorem good (s : S) (c : Call) (h : Inv s) : Good s c := by
   | tmsAsBytes m a r c ty body => exact ⟨rfl, h.scratch _ _ _ _, rfl⟩
   | crc9Parts form data sn mask crc32 => exact good_crc9Parts h form data sn mask crc32
   | gpsDate dd mm yy => exact ⟨rfl, h, rfl⟩
+  | elementBits cls i => exact ⟨rfl, h, rfl⟩
 
 /-! ### histories -/
 
